@@ -196,7 +196,7 @@ func (w *Worker) roundTrip(req *Request, timeout time.Duration) (*Response, stri
 
 var (
 	reFrame   = regexp.MustCompile(`(?m)^\s+(/repo/[^\s:]+):(\d+)`)
-	reFnFrame = regexp.MustCompile(`(?m)^(github\.com/smarthome-go/homescript/v3/.*)\([^()]*\)$`)
+	reFnFrame = regexp.MustCompile(`(?m)^\s*(github\.com/smarthome-go/homescript/v3/.*)\([^()]*\)$`)
 )
 
 // CrashSignature reduces a Go crash report to "<class> @ <first repo function>".
@@ -216,8 +216,10 @@ func CrashSignature(log string) string {
 		}
 		msg = line
 		class = classifyPanic(line)
-	} else if strings.Contains(log, "DATA RACE") {
+	}
+	if strings.Contains(log, "DATA RACE") {
 		class = "DATA RACE"
+		msg = "DATA RACE"
 	}
 	frame := ""
 	// first repo function frame after the panic line
